@@ -35,6 +35,7 @@ type c9GenTrack struct {
 	count int
 	burst int // audio: units per write burst (1 = regular)
 	multi bool
+	bf    []c9BfFrame // video with frame reordering: the planned frames (pts, extracted dts, pattern index)
 	all3  bool // audio-led multi-AU mode: every call carries exactly three AUs (call starts fall on whole milliseconds)
 }
 
@@ -48,12 +49,23 @@ func (e2eSlice) Gen(r *rand.Rand, _ int, tier string) ([]string, []string) {
 	for int64(gop)*fv > 2160 && gop > 3 { // a GOP of at most 24 ms
 		gop--
 	}
-	mkVideo := func() *c9GenTrack {
-		codec := "h264"
-		if variant != "ts" {
-			codec = []string{"h264", "h264", "h264", "h265", "vp9", "av1", "av1"}[r.Intn(7)]
+	vcodec := "h264"
+	if variant != "ts" {
+		vcodec = []string{"h264", "h264", "h264", "h265", "vp9", "av1", "av1"}[r.Intn(7)]
+	}
+	// FRAME REORDERING (DTS != PTS; e2e_bf.go): H264 in every variant, on the compressed axis (the pattern scales);
+	// H265 in the fMP4 variants, unscaled (its extractor derives DTS from the SPS's frame duration): fewer, longer cases
+	reorder := (vcodec == "h264" && r.Intn(4) == 0) || (vcodec == "h265" && r.Intn(3) == 0)
+	if reorder {
+		if vcodec == "h265" {
+			fv = 3000
+		} else if fv < 135 {
+			fv = 180
 		}
-		return &c9GenTrack{codec: codec, rate: 90000, step: fv, gop: gop, burst: 1}
+		gop = int(c9BfSlots(vcodec))
+	}
+	mkVideo := func() *c9GenTrack {
+		return &c9GenTrack{codec: vcodec, rate: 90000, step: fv, gop: gop, burst: 1}
 	}
 	// audio unit duration in µs; "dense" = shorter than a video frame (every LL part then holds audio)
 	audioUs := func(dense bool) int64 {
@@ -170,7 +182,7 @@ func (e2eSlice) Gen(r *rand.Rand, _ int, tier string) ([]string, []string) {
 	}
 	// true AAC timing with several AUs per call (non-LL only: 1024 samples are longer than a compressed part)
 	// (segments are then made at least three audio frames long, so that none is without audio)
-	if variant != "ll" && !sparse && hasVideo && r.Intn(8) == 0 {
+	if variant != "ll" && !sparse && hasVideo && !reorder && r.Intn(8) == 0 {
 		for _, t := range tracks {
 			if t.codec == "aac" && (t.sr == 96000 || (t.sr == 48000 && tier == "thorough")) {
 				t.step = 1024
@@ -227,6 +239,9 @@ func (e2eSlice) Gen(r *rand.Rand, _ int, tier string) ([]string, []string) {
 	}
 	if audioLed {
 		segMin = segDurNs - 1000 // a hair below k AU durations: a segment = exactly k AUs
+	}
+	if reorder && hasVideo && vcodec == "h265" && segMin > segDurNs {
+		segMin = segDurNs // a GOP lasts 233 ms of real time: one GOP per segment at most
 	}
 	if segMin < 1000000 {
 		segMin = 1000000
@@ -286,7 +301,7 @@ func (e2eSlice) Gen(r *rand.Rand, _ int, tier string) ([]string, []string) {
 		tags = append(tags, "jumbled-interleaving")
 	}
 	jitter := r.Intn(4) == 0 && !audioLed
-	midGOP := r.Intn(5) == 0 && hasVideo
+	midGOP := r.Intn(5) == 0 && hasVideo && !reorder
 
 	// at least nine segments in the paced part (a non-LL client starts three segments behind the live edge)
 	effSeg := segDurNs
@@ -309,6 +324,44 @@ func (e2eSlice) Gen(r *rand.Rand, _ int, tier string) ([]string, []string) {
 		}
 	}
 
+	// ---- frame reordering: plan the video track (pts, dts the muxer's extractor will choose, pattern index)
+	bfPreGOPs := 0
+	if reorder && hasVideo {
+		vt := tracks[lead]
+		gopTicks := c9BfSlots(vcodec) * fv
+		var slots, gaps []int64
+		if vcodec == "h265" {
+			// unscaled; the first segment is made long by a hole after the first GOP
+			nG := 4 // LL: any part will do
+			if variant != "ll" {
+				nG = 6 + r.Intn(2)
+			}
+			spanMs = int(int64(nG) * gopTicks / 90)
+			for g := 0; g <= nG+1; g++ {
+				slots = append(slots, 3000)
+			}
+			gaps = []int64{30000 + int64(r.Intn(9000))}
+			bfPreGOPs = 1
+		} else {
+			// first GOP stretched to 0.9 s (its DTS span, 57000 ticks, is what the segment lasts); the extractor needs two
+			// more GOPs for the decode times to catch up with the compressed presentation times: unpaced as well
+			slots = append(slots, 9000)
+			nG := int(int64(spanMs)*90/gopTicks) + 2
+			for g := 0; g < 2+nG; g++ {
+				slots = append(slots, fv)
+			}
+			bfPreGOPs = 3
+		}
+		if fr, ok := c9BfPlan(vcodec, vt.next, slots, gaps); ok {
+			vt.bf = fr
+			vt.next = fr[0].dts
+			tags = append(tags, vcodec+"-reordering")
+		} else {
+			reorder = false
+			tags = append(tags, "reordering-plan-rejected")
+		}
+	}
+
 	// ---- writes
 	// EXT-X-TARGETDURATION is the rounded duration of the longest segment and the library's own playlist reader
 	// rejects 0: the FIRST segment is therefore made longer than 0.5 s of media time (a long first GOP of short
@@ -323,6 +376,15 @@ func (e2eSlice) Gen(r *rand.Rand, _ int, tier string) ([]string, []string) {
 	preSec := float64(preMs) / 1000
 	preEnd := baseSec + preSec // audio-only; with video: preSec after the first random-access unit (set below)
 	endSec := preEnd + float64(spanMs)/1000
+	if reorder && hasVideo {
+		vt := tracks[lead]
+		patLen := len(bfPattern)
+		if vcodec == "h265" {
+			patLen = len(bf5Pattern)
+		}
+		preEnd = float64(vt.bf[bfPreGOPs*patLen].dts) / 90000
+		endSec = preEnd + float64(spanMs)/1000
+	}
 	skip := -1
 	leadIn := 0
 	if midGOP {
@@ -362,7 +424,34 @@ func (e2eSlice) Gen(r *rand.Rand, _ int, tier string) ([]string, []string) {
 				fill = 20 + r.Intn(300)
 			}
 			var op string
-			if isVideoCodec(t.codec) {
+			if t.bf != nil {
+				f := t.bf[t.count]
+				ra := f.k == 0
+				par := 0
+				if ra {
+					par = 1
+				}
+				pay++
+				ntp = ntpBase + c9FloorDiv(f.dts*1000, int64(t.rate)) - baseMs // NTP follows the DECODE time line
+				if ntp < 0 {
+					ntp = 0
+				}
+				size := mxH264Sizes(variant, bfBuildAUFor(t.codec, par, f.k, pay))
+				op = fmt.Sprintf("w t=%d pts=%d dts=%d ntp=%d ra=%s pic=1 par=%d pays=%d sizes=%d fill=0 bf=%d", best, f.pts, f.dts, ntp, b01(ra), par, pay, size, f.k)
+				if best == lead && ra {
+					if segStart < 0 {
+						segStart = now
+					} else if (now-segStart)*1e9 >= float64(segMin) {
+						segDone = append(segDone, len(ws))
+						segStart = now
+					}
+				}
+				if t.count+1 < len(t.bf) {
+					t.next = t.bf[t.count+1].dts
+				} else {
+					t.next = int64(1) << 50 // the plan is exhausted: the track stops
+				}
+			} else if isVideoCodec(t.codec) {
 				var ra bool
 				switch {
 				case t.count < leadIn:
@@ -535,7 +624,11 @@ func (e2eSlice) Gen(r *rand.Rand, _ int, tier string) ([]string, []string) {
 		if lg == "" {
 			lg = "-"
 		}
-		ops = append(ops, fmt.Sprintf("track codec=%s rate=%d sr=%d name=%s lang=%s def=%s step=%d", t.codec, t.rate, t.sr, nm, lg, b01(t.def), t.step))
+		line := fmt.Sprintf("track codec=%s rate=%d sr=%d name=%s lang=%s def=%s step=%d", t.codec, t.rate, t.sr, nm, lg, b01(t.def), t.step)
+		if t.bf != nil {
+			line += " bf=1"
+		}
+		ops = append(ops, line)
 	}
 	ops = append(ops, "begin")
 	ops = append(ops, ws...)
